@@ -16,10 +16,15 @@ Finding keys (discrete labels only):
   dogleg_step|norm=<identity|matrix>|class=<pair class>|<signature>
   treigen.solve|<interior|boundary|hard-case>|eigenbasis=<identity|generic>|<signature>
   treigen.solve|hard-case|pz=0|nonfinite                                         (division by sign(0))
-  ModelProblem.solve|<interior|boundary|hard-case>|<signature>  /  ...|hard-case|pz=0|nonfinite
+  treigen.solve|zero-matrix|<signature>                                          (A == 0 exactly)
+  ModelProblem.solve|<interior|boundary|hard-case|zero-matrix>|<signature>  /  ...|hard-case|pz=0|nonfinite
 "eigenbasis=generic" in a key means "not the identity" (permutation / Householder / seeded rotation; the exact
 axis label is in the case id); "hard-case" means the reference multiplier sits on the pole -sig_min
 (lam + sig_min <= 1e-10 mean|sig|), which contains every input for which treigen takes its hard-case branch.
+
+treigen.solve's secular-equation loop has no iteration bound; an execution that has not left it after
+NEWTON_BUDGET iterations (counted through the module-level helper it calls once per iteration -- deterministic, no
+wall clock) is recorded as no-verdict, never as a violation (DESIGN 2.1 "Horizon").
 """
 import math
 
@@ -60,6 +65,9 @@ ASSUMPTIONS = [
     "ModelProblem is given linearly independent vectors (smallest singular value of the normalised set >= 1e-3); "
     "dependent sets are inadmissible for its one-pass Gram-Schmidt and are counted, not executed",
     "radii 1e-6..1e6; spectra with |sig| in [1e-8, 1e3]; gradients of norm 1 (1e-12 for the 'tiny' class)",
+    "treigen.solve / ModelProblem.solve executions whose unguarded secular-equation loop is still running after 500 "
+    "iterations give no verdict (the property constrains what is returned); they are listed in no_verdict and make "
+    "the run non-exhaustive",
     "reference solutions are themselves checked against the More-Sorensen optimality conditions in every case "
     "(a failing certificate aborts the run as a harness error)",
 ]
@@ -125,7 +133,7 @@ def bounds(tier):
             "subspace": len(_dims(tier)) * len(SPECTRA) * len(BASES) * len(GRADS) * len(_radii(tier)) * len(SUBSPACES),
             "dogleg": len(_dims(tier)) * len(PRECONDS) * len(DOGLEG_CLASSES) * len(DOGLEG_DIRS) * len(_radii(tier)),
         },
-        "horizon_s": 20,
+        "horizon_s": 20, "treigen_newton_iteration_budget": 500,
     }
 
 
@@ -376,7 +384,7 @@ def _run_truncated_cg(g, tier, seed, rec):
                             if ml == "euclid":
                                 tauN, regime = TAU_BALL["euclid"], "euclid"
                             else:
-                                regime = "precond:cond-%s:%s" % (cond, "iters<=n" if iters <= n else "iters>n")
+                                regime = "precond:pre=%s:cond-%s:%s" % (pl, cond, "iters<=n" if iters <= n else "iters>n")
                                 if cond == "well" and iters <= n:
                                     tauN = TAU_BALL["precond"]
                                 elif cond == "well" or iters <= n:
